@@ -362,7 +362,7 @@ def write_to_path(ctx):
         except UnicodeEncodeError:
             return
         names = [name]
-        if ctx.params.get("catalogue") and name == "a":
+        if ctx.params.get("catalogue"):
             names = CATALOGUE  # names no branch of the code singles out (the solver has no reason to produce them)
         for nm in names:
             for fmt in FORMATS:
